@@ -112,7 +112,7 @@ func TestLexNumberValues(t *testing.T) {
 
 func TestLexErrors(t *testing.T) {
 	tests := []struct {
-		src, msg   string
+		src, msg  string
 		line, col int
 	}{
 		{`"abc`, "unterminated string", 1, 1},
@@ -120,7 +120,7 @@ func TestLexErrors(t *testing.T) {
 		{"/* never closed", "unterminated block comment", 1, 1},
 		{"`abc ${x", "unterminated template", 1, 1},
 		{`"\U0001F600"`, "invalid escape sequence", 1, 2}, // Go %q of a non printable / wide rune
-		{`"\a"`, "invalid escape sequence", 1, 2},        // Go %q bell
+		{`"\a"`, "invalid escape sequence", 1, 2},         // Go %q bell
 		{`'\q'`, "invalid escape sequence", 1, 2},
 		{`"\x4"`, "invalid escape sequence", 1, 2},
 		{`"\xZZ"`, "invalid escape sequence", 1, 2},
